@@ -9,6 +9,7 @@ import numpy as np
 from hypothesis import strategies as st
 
 import lentil
+from vlib import foreign
 from vlib.ref import ptype_doc
 from vlib.runner import (Skip, Violation, enum, hyp, known_predicate, known_probe, lentil_call)
 
@@ -57,37 +58,36 @@ def name_of(op):
     return name if kind == "ptype" else None
 
 
-def make_plane(op):
+def plane_recipe(op):
+    """(class name, keyword arguments, documented ptype, adds tilt) of the alphabet's plane ``op``"""
     kind, name = op.split(":")
     if kind == "ptype":
         if name in ("pupil", "image"):      # planes that give the wavefront a propagatable type also give it a shape
-            return lentil.Plane(amplitude=np.ones((N, N)), ptype=name), name, False
-        return lentil.Plane(ptype=name), name, False
+            return "Plane", dict(amplitude=np.ones((N, N)), ptype=name), name, False
+        return "Plane", dict(ptype=name), name, False
     p = doc_ptype_of_class(name)
-    if name == "Plane":
-        return lentil.Plane(), p, False
-    if name == "Pupil":
-        return lentil.Pupil(amplitude=np.ones((N, N)), opd=np.zeros((N, N)), focal_length=Z_PUPIL), p, False
-    if name == "Image":
-        return lentil.Image(amplitude=np.ones((N, N))), p, False
-    if name == "Tilt":
-        return lentil.Tilt(x=1e-7, y=-2e-7), p, True
-    if name == "DispersiveTilt":
-        return lentil.DispersiveTilt(trace=[1.0, 0.0], dispersion=[1e-3, WL]), p, True
-    if name == "Grism":
-        with warnings.catch_warnings():
-            warnings.simplefilter("ignore")
-            return lentil.Grism(trace=[0.5, 0.0], dispersion=[2e-3, WL]), p, True
-    if name == "Rotate":
-        return lentil.Rotate(angle=90), p, False
-    if name == "Flip":
-        return lentil.Flip(axis=0), p, False
-    raise KeyError(name)
+    kw = {"Plane": {}, "Pupil": dict(amplitude=np.ones((N, N)), opd=np.zeros((N, N)), focal_length=Z_PUPIL),
+          "Image": dict(amplitude=np.ones((N, N))), "Tilt": dict(x=1e-7, y=-2e-7),
+          "DispersiveTilt": dict(trace=[1.0, 0.0], dispersion=[1e-3, WL]),
+          "Grism": dict(trace=[0.5, 0.0], dispersion=[2e-3, WL]), "Rotate": dict(angle=90), "Flip": dict(axis=0)}[name]
+    return name, kw, p, name in ("Tilt", "DispersiveTilt", "Grism")
+
+
+def make_plane(op, where="here"):
+    """the plane built in this process, or (where='foreign') built in another interpreter process and loaded here"""
+    cls, kw, p, adds_tilt = plane_recipe(op)
+    with warnings.catch_warnings():
+        warnings.simplefilter("ignore")
+        if where == "foreign":
+            return foreign.call("lentil." + cls, **kw), p, adds_tilt
+        return getattr(lentil, cls)(**kw), p, adds_tilt
 
 
 # how the plane object handed to the multiplication came about: a plane is the same plane after copy(),
 # copy.deepcopy() or a pickle round trip (multiprocessing workers), and with its type given as a string or an object
-VARIANTS = ["constructed", "copy", "deepcopy", "pickle"]
+# "foreign": built in ANOTHER interpreter process (different string-hash salt, fresh modules) and loaded here from its
+# pickle - a model saved in an earlier session, or planes handed over by a multiprocessing worker (vlib/foreign.py)
+VARIANTS = ["constructed", "copy", "deepcopy", "pickle", "foreign"]
 
 
 def derive(plane, variant):
@@ -104,10 +104,19 @@ def variant_for(ops, i):
     return VARIANTS[(i + len(ops) + sum(ALPHABET.index(o) for o in ops[:i + 1])) % len(VARIANTS)]
 
 
-START_FORMS = ["planes", "ctor_str", "ctor_obj", "setter_str", "empty_str", "empty_obj"]
+START_FORMS = ["planes", "ctor_str", "ctor_obj", "setter_str", "empty_str", "empty_obj", "foreign"]
 
 
 def start_wavefront(t, blocked=False, form="planes"):
+    if form == "foreign":
+        # the whole start wavefront is produced in another interpreter process and loaded here
+        prog = [("w", "lentil.Wavefront", (WL,), dict(pixelscale=DX, focal_length=Z))]
+        if t != "none":
+            prog += [("p", "lentil.Pupil", (), dict(amplitude=np.ones((N, N)), opd=np.zeros((N, N)), pixelscale=DX, focal_length=Z)),
+                     ("w", "operator.mul", ("$w", "$p"), {})]
+        if t == "image":
+            prog += [("w", "lentil.propagate_dft", ("$w",), dict(pixelscale=WL * Z / (DX * GRID), shape=N, oversample=1))]
+        return foreign.run(prog)
     if form != "planes":
         # a wavefront given its type directly: through the constructor or the ptype setter (type name or lentil.<type>
         # object), or Wavefront.empty; a plane of the same type then gives it a shape without changing the type
@@ -211,11 +220,12 @@ def run_program(start, ops, ctx=None, variants=None, blocked=False, form="planes
         variant = variants[i] if variants is not None else variant_for(ops, i)
         where = f"step {i} ({op}, plane {variant}) on a {t} wavefront [program {start}: {' '.join(ops[:i + 1])}]"
         with lentil_call("C08.construct", f"constructing {op} ({variant})"):
-            plane, p, adds_tilt = make_plane(op)
+            plane, p, adds_tilt = make_plane(op, "foreign" if variant == "foreign" else "here")
             if name_of(op) in ("pupil", "image", "none", "tilt", "transform") and (i + len(ops)) % 2:
-                # plane type given as the lentil.<type> object instead of its name
-                plane = lentil.Plane(amplitude=np.ones((N, N)) if name_of(op) in ("pupil", "image") else 1,
-                                     ptype=getattr(lentil, name_of(op)))
+                # plane type given as the lentil.<type> object instead of its name (for the foreign variant: a type
+                # object that was created in the other process, given to a plane built here)
+                tobj = foreign.call("lentil.ptype", name_of(op)) if variant == "foreign" else getattr(lentil, name_of(op))
+                plane = lentil.Plane(amplitude=np.ones((N, N)) if name_of(op) in ("pupil", "image") else 1, ptype=tobj)
             plane = derive(plane, variant)
         if str(plane.ptype) != p:
             raise Violation("C08.class.ptype", f"{op}: instance has ptype '{plane.ptype}', documented '{p}'")
